@@ -119,6 +119,7 @@ type interpreter struct {
 	typeCache map[string]types.Type
 	harnessState map[string]value
 	fdTick    int
+	tick      int // logical clock for vrt.Tick
 }
 
 type deferred struct {
